@@ -1,6 +1,7 @@
 //! xsv — implementation-side driver for the correspondence checks.
 //! Every subcommand runs the real code of the tree it was built against.
 
+mod codec;
 mod common;
 mod sched;
 mod seq;
@@ -18,6 +19,7 @@ fn main() {
         "sched" => sched::main(&args[2..]),
         "stress" => stress::main(&args[2..]),
         "serve" => serve::main(&args[2..]),
+        "codec" => codec::main(&args[2..]),
         other => {
             eprintln!("unknown subcommand {other}");
             2
